@@ -33,7 +33,7 @@ fn all_tags() -> Vec<u32> {
     }
     v.extend(200..=206);
     v.extend(210..=217);
-    v.extend([220, 222, 223, 224, 225, 226, 227]);
+    v.extend([220, 222, 223, 224, 225, 226, 227, 228]);
     v.extend(240..=246);
     v.extend(300..=303);
     // not reachable through this stream: 104+Some (panic arm), 221 (LISTEN has no tuple),
